@@ -112,6 +112,8 @@ def run_session(s, classes):
         # (c) nothing secret in clear
         for what, needle in (("the SET value marker", MARK), ("the context name", ctx_name if len(ctx_name) >= 6 else None),
                              ("a requested OID", vber.oid_content(COL) if op in ("walk", "bulkwalk", "getnext", "multiget") else None)):
+            if needle and (needle in r["engine_id"] or needle in r["user"]):
+                continue     # the generated engine id / user name itself contains the needle: legitimately in clear
             if needle and needle in raw:
                 return "%s: %s travels in clear in datagram %d: %s" % (label, what, i, raw.hex()[:300]), None
         if r["flags"] & 3 != 3:
